@@ -1,18 +1,55 @@
 CHECK = {
     "lean_module": "MidnightZK.Props.C02",
     "harness": "h-c02",
-    "translators": [],
+    "translators": ["c02_consts"],
     "level": "proof",
-    "technique": "Lean 4 proof that the mock checker's verdict is row-level satisfaction (incl. its lookup fill-row shortcut and trash arguments); three-way correspondence real verifier / MockProver / Lean rowSat on faulted witnesses of generated circuits",
-    "rule": "circuit-family members x (honest | every advice assignment x {+1, 0, neighbour, random} sampled | one value of each instance column +1); "
-            "one case = MockProver verdict + real prove/verify verdict + Lean rowSat on the dumped constraint system and table; "
-            "distinct = distinct request lines (constraint system + table)",
-    "explanation": "mock_agrees: MockProver's verdict equals the plain row-level meaning of gates, additive-selector constraints, lookups and copy "
-                   "constraints for every constraint system and assignment. The Lean evaluator is run on the real dumped constraint system and "
-                   "table; its verdict, the mock verdict and the real verifier's verdict must coincide on every faulted witness.",
-    "trusted_base": ["knowledge soundness of PLONK+KZG (AGM/ROM) is not modelled: 'verifier rejects' is observed on real proofs, not proved"],
-    "assumptions": ["a violated constraint makes the real verifier reject except with negligible probability over the Fiat-Shamir challenges"],
-    "level_text": "Kernel-checked theorems about the checker logic (mock = row satisfaction, fill-row shortcut sound, D2 witness) and an executable Lean semantics of the real constraint system validated against MockProver and the real verifier on every sampled fault",
-    "level_note": "partial: algebraic soundness of the verifier identities is not yet mechanised; cryptographic soundness assumed",
+    "technique": "Lean 4 proofs (a) that the mock checker's verdict is row-level satisfaction, (b) that the verifier's identity list "
+                 "covers every constraint class exactly once in the order of the Rust code, (c) of the algebraic soundness of each class "
+                 "(gates, permutation with counting bound on bad beta/gamma, lookup incl. theta-compression, trash) and of the y- and "
+                 "x-combination; identity-level correspondence: every value folded by the real verifier (hooked log) is recomputed by the "
+                 "Lean model from the recorded transcript scalars labelled with the Lean schedule model; three-way correspondence real "
+                 "verifier / MockProver / Lean rowSat on faulted witnesses of generated circuits",
+    "rule": "circuit-family members x (honest | every advice assignment x {+1, 0, neighbour, random} sampled | one value of each instance column +1 | "
+            "two circuits proven together); per assignment one `sat` case = MockProver verdict + real prove/verify verdict + Lean rowSat on the "
+            "dumped constraint system and table, and (whenever the prover yields a proof, accepted or not) one `ids` case = the hooked identity "
+            "values, y, x^n, expected_h_eval of the real verifier vs the Lean identity model run on the dumped constraint system, the plain "
+            "instance values and the ordered scalars read / challenges squeezed by the verifier; `domain` cases = omega and DELTA per k; "
+            "distinct = distinct request lines",
+    "explanation": "ids_cover: for every constraint-system shape the class tags of the verifier's identity list (Model/C02/Identities.lean, "
+                   "a mirror of evaluate_identities / permutation.rs expressions / lookup.rs / trash.rs / l_i_range / PartiallyEvaluated::verify) "
+                   "are every gate polynomial, permFirst, permLast, permChain s, permProduct s, five rules per lookup, one per trash argument, "
+                   "each once, in code order. The model is tied to the code on every run: the harness runs the real verifier with the "
+                   "verif-hooks identity log and a value-recording transcript; the Lean driver labels the scalar stream with "
+                   "Model/C01/Schedule.lean verifierSchedule, recomputes x^n, l_0, l_last, l_blind (omega derived from the generated "
+                   "ROOT_OF_UNITY), the instance evaluations of plain columns and every identity value, and must reproduce count, order, "
+                   "values and expected_h_eval for honest, faulted and two-proof runs. Row-level meaning: gate_identity_rows (gate identity "
+                   "on rows = gate polynomial on rows), perm_argument_sound (rows of permExpressionsRow zero => copy constraints, for all "
+                   "but (2N)^2 beta and 2N gamma per beta), lookup_argument_sound(+_tuples) (rows of lookupExpressionsRow zero on a grid of "
+                   "(beta,gamma) => compressed membership; at most u(l-1) bad theta), trash_argument_sound (fewer than #expressions bad trash "
+                   "challenges), y_combination_sound, x_evaluation_sound, verifier_equation_sound (single equation at x,y => every identity "
+                   "vanishes on the domain); perm_/lookup_/trash_identity_is_row_rule: the identity model's values cast to ZMod p "
+                   "ARE the values of permExpressionsRow / lookupExpressionsRow / trashExpressionRow (Model/C01/Arguments.lean) when the "
+                   "evaluations are row values, so the row-level theorems speak about the validated identity list. mock_agrees: MockProver's verdict equals the plain row-level meaning for every constraint "
+                   "system and assignment; the Lean evaluator, the mock verdict and the real verifier's verdict must coincide on every "
+                   "faulted witness.",
+    "trusted_base": ["knowledge soundness of PLONK+KZG (AGM/ROM) is not modelled: that the evaluations read from the proof are evaluations of "
+                     "the committed polynomials (KZG binding, C14) and that beta, gamma, theta, trash challenge, y, x are uniformly random "
+                     "(Fiat-Shamir) is assumed",
+                     "harness/c02/src/valrec.rs (value-recording transcript: squeezed challenges are learnt from a clone of the inner transcript) "
+                     "and the verif-hooks identity log print what the verifier reads and folds",
+                     "the group-theoretic fact that the labels delta^c*omega^i are pairwise distinct is a hypothesis of perm_argument_sound "
+                     "(root_of_unity_primitive and delta_order prove the orders it follows from)"],
+    "assumptions": ["a violated constraint makes the real verifier reject except with negligible probability over the Fiat-Shamir challenges "
+                    "(the theorems bound the number of bad challenges per argument; the union bound over the transcript and the extraction of "
+                    "the committed polynomials are not mechanised)"],
+    "level_text": "Kernel-checked theorems: the checker logic (mock = row satisfaction, fill-row shortcut sound, D2 witness); ids_cover for every "
+                  "constraint-system shape; per-class algebraic soundness at row level with explicit counts of bad challenges (permutation, "
+                  "lookup incl. theta step, trash), gate identity = gate polynomial on rows, y/x-combination and the single-equation chain; "
+                  "defining equations of ROOT_OF_UNITY and DELTA. The identity model is validated against the hooked identity log of the real "
+                  "verifier (count, order, every value, expected_h_eval) on every honest, faulted and two-proof run; the row-level semantics "
+                  "against MockProver and the real verifier on every sampled fault",
+    "level_note": "partial: knowledge soundness (extraction of the committed polynomials, KZG binding, Fiat-Shamir/ROM, union bound over the "
+                  "challenges) is not mechanised; distinctness of the permutation labels delta^c*omega^i and the indicator behaviour of "
+                  "l_0/l_last/l_blind on the domain (barycentric formula, C12) are hypotheses / modelling choices of the row-level theorems",
     "timeout": {"quick": 1500, "thorough": 7200, "search": 2400},
 }
